@@ -3,3 +3,5 @@ import MementoModel.Lemmas.CacheLemmas
 import MementoModel.Props.C06
 import MementoModel.Model.Store
 import MementoModel.Props.C05
+import MementoModel.Props.C19
+import MementoModel.Props.C07
